@@ -52,6 +52,11 @@ fn gen_cases(mode: &str, tier: &str, seed: u64) -> Vec<Case> {
         let mut opts = match mode { "neutral" => OptSet::neutral(), _ => OptSet::generate(&mut r, &h) };
         // every fifth case runs in a repository where an earlier run left its commit-map (old-id translation of messages)
         if mode != "cuts" && id % 5 == 4 { opts.prior_map = Some(OptSet::gen_prior_map(&mut r)); }
+        {
+            let msgs: Vec<Vec<u8>> = h.commits.iter().map(|c| c.msg.clone()).chain(h.tags.iter().map(|t| t.msg.clone())).collect();
+            let blobs: Vec<Vec<u8>> = h.blobs.iter().map(|b| b.content.clone()).collect();
+            fill_regex_tables(&mut opts, &msgs, &blobs);
+        }
         let stream: Vec<u8> = chunks.concat();
         let base = Case { id, opts, chunks, stream, nmarks: h.max_mark() + 2, paths: h.all_paths(), kind: "generated", nontrivial: true };
         id += 1;
@@ -176,6 +181,9 @@ fn main() {
                             if zero > 0 { *d.entry("runs-with-pruned-commits".into()).or_insert(0) += 1; }
                             if !obs.ref_map.is_empty() { *d.entry("runs-with-renamed-refs".into()).or_insert(0) += 1; }
                             if obs.filtered != c.stream { *d.entry("runs-that-change-the-stream".into()).or_insert(0) += 1; }
+                            if c.opts.rx_msg.as_ref().map_or(false, |t| !t.is_empty()) || c.opts.rx_blob.as_ref().map_or(false, |t| !t.is_empty()) {
+                                *d.entry("runs-in-which-a-pattern-rule-fires".into()).or_insert(0) += 1;
+                            }
                             if let Some(pm) = &c.opts.prior_map {
                                 *d.entry("runs-after-an-earlier-commit-map".into()).or_insert(0) += 1;
                                 // the translator has something to do: a message cites an id the earlier map records
